@@ -164,4 +164,32 @@ theorem msgKeyV1_eq (P : Prims) (hP : LawfulPrims P) (pt : Bytes) :
   rw [copyAt_zeros0 _ _ _ (by omega) (by simp)]
   simp [l, zeros]
 
+theorem msgKey_eq (P : Prims) (hP : LawfulPrims P) (ak pt : Bytes) (side : Side) :
+    Impl.msgKey P ak pt side = Spec.msgKey P ak pt side := by
+  unfold Impl.msgKey Spec.msgKey
+  rw [msgKeyLarge_eq]
+  exact messageKey_eq _ (hP.sha256_len _)
+
+theorem keys_eq (P : Prims) (hP : LawfulPrims P) (ak mk : Bytes) (side : Side) :
+    Impl.keys P ak mk side = Spec.keys P ak mk side := by
+  unfold Impl.keys Spec.keys Impl.aesIV
+  simp only [Facts.C06.keys_aesKey_args, Facts.C06.keys_aesIV_args, Facts.C06.aesIV_aesKey_args,
+    List.getD_cons_zero, List.getD_cons_succ]
+  rw [sha256a_eq, sha256b_eq]
+  have la : (Spec.sha256a P ak mk side).length = 32 := hP.sha256_len _
+  have lb : (Spec.sha256b P ak mk side).length = 32 := hP.sha256_len _
+  rw [aesKey_eq _ _ la lb, aesKey_eq _ _ lb la]
+
+theorem impl_msgKey_length (P : Prims) (hP : LawfulPrims P) (ak pt : Bytes) (side : Side) :
+    (Impl.msgKey P ak pt side).length = 16 := by
+  rw [msgKey_eq P hP]
+  simp [Spec.msgKey, Spec.msgKeyLarge, substr_length, hP.sha256_len]
+
+theorem impl_keys_iv_length (P : Prims) (hP : LawfulPrims P) (ak mk : Bytes) (side : Side) :
+    (Impl.keys P ak mk side).2.length = 32 := by
+  rw [keys_eq P hP]
+  simp [Spec.keys, Spec.sha256a, Spec.sha256b, substr_length, hP.sha256_len]
+
+theorem flip_flip (s : Side) : s.flip.flip = s := by cases s <;> rfl
+
 end TdModel.C06
